@@ -10,6 +10,7 @@ Prints one line per check: caught / missed, and updates meta.json["results"].
 import json, os, subprocess, sys, tempfile, shutil
 
 VERIF = os.path.dirname(os.path.dirname(os.path.abspath(__file__)))
+REPO = os.environ.get("VERIF_REPO", "/repo")   # the checks honour the same variable
 
 
 def sh(cmd, **kw):
@@ -49,10 +50,12 @@ def main():
             sh(["git", "-C", "/repo", "worktree", "remove", "--force", wt])
             shutil.rmtree(wt, ignore_errors=True)
     args = [c for c in checks if c and not c.startswith("--")]
-    assert sh(["git", "-C", "/repo", "status", "--porcelain", "--untracked-files=no"]).stdout.strip() == "", "/repo not clean"
-    ap = sh(["git", "-C", "/repo", "apply", patch])
+    if sh(["git", "apply", "-R", "--check", patch], cwd=REPO).returncode == 0:
+        print("patch is already applied to", REPO)
+        return 2
+    ap = sh(["git", "apply", patch], cwd=REPO)
     if ap.returncode != 0:
-        print("patch does not apply to /repo:", ap.stderr[-300:])
+        print("patch does not apply to", REPO, ap.stderr[-300:])
         return 2
     try:
         for c in args:
@@ -71,7 +74,7 @@ def main():
             res[c] = dict(caught=caught, kind=kind, exit=r.returncode, summary=lines[-1] if lines else r.stdout[-200:], detail=detail[:400])
             print(f"{c}: {'CAUGHT' if caught else 'missed'} ({kind}) {detail[:160]}")
     finally:
-        sh(["git", "-C", "/repo", "checkout", "--", "."])
+        sh(["git", "apply", "-R", patch], cwd=REPO)
     json.dump(meta, open(meta_p, "w"), indent=1)
     return 0
 
